@@ -9,6 +9,7 @@ real functions on every run."""
 import sys
 import ast, re, itertools
 import z3
+from vlib import pike
 from vlib import repo, lrtab, codec, pysym, lexmodel
 from vlib.core import PROVED, FAILED, UNDECIDED, Bounded, CheckerError
 from vlib.fst import Fst, Dfa, FstError, regex_dfa, equivalent, validate
@@ -76,20 +77,25 @@ def replay_decode(dname, text, want):
     return {'input': sql, 'dialect': dname, 'fires': got != want, 'observed': f'value {got!r}', 'expected': f'{want!r}'}
 
 
-def replay_encode(dname, node_factory, v, expect_kind):
+def replay_encode(dname, node_factory, v, expect_kind, follow_text=None):
+    """print the node as the first target of a SELECT and parse the text again; with follow_text the verifier's continuation is realised by
+    a second target (a string constant holding the characters of the continuation that matter)"""
     from mindsdb_sql import parse_sql
-    from mindsdb_sql.parser.ast import Select
+    from mindsdb_sql.parser.ast import Select, Constant
     node = node_factory(v)
+    targets = [node]
+    if follow_text:
+        targets.append(Constant('x'))
     try:
-        text = Select(targets=[node]).to_string()
+        text = Select(targets=targets).to_string()
     except Exception as e:
         return {'input': repr(v), 'dialect': dname, 'fires': True, 'observed': f'printing raises {type(e).__name__}', 'expected': 'text'}
     try:
         q = parse_sql(text, dialect=dname)
         t = q.targets[0]
         got = getattr(t, 'value', None) if expect_kind != 'ident' else getattr(t, 'parts', None)
-        ok = (type(t).__name__ == type(node).__name__) and (got == (v if expect_kind != 'ident' else [v])) and len(q.targets) == 1
-        obs = f'`{text}` parses to {type(t).__name__} {got!r}'
+        ok = (type(t).__name__ == type(node).__name__) and (got == (v if expect_kind != 'ident' else [v])) and len(q.targets) == len(targets)
+        obs = f'`{text}` parses to {type(t).__name__} {got!r}' + (f' ({len(q.targets)} targets)' if len(q.targets) != len(targets) else '')
     except Exception as e:
         ok = False
         obs = f'`{text}` -> {type(e).__name__}: {str(e)[:60]}'
@@ -256,37 +262,42 @@ def encode_constant(rep, dname):
     backslash = L.accepts("'a\\'a'")
     Den = codecs.den_quoted(Q, doubling, backslash)
     follow = Dfa.chars(ALPHABET, [c for c in ALPHABET if c != Q]).concat(codecs.star())
+    pk = pike.Pike(pat, re.IGNORECASE)
+    badpk = pk.validate(list("'\"\\a "), 6)
+    if badpk:
+        raise CheckerError(f'ordered-thread model of the {dname} QUOTE_STRING pattern disagrees with re.match on {badpk}')
     for rname, R in value_regions().items():
         oid = f'C04.enc.{dname}.Constant.{rname}'
         E = Enc.on_domain(R)
-        clause = 'forall v in region: text=get_string(v) is exactly one QUOTE_STRING token (no other prefix of text.follow is) and Den(text) == v'
+        follow_text = None
+        clause = ('forall v in region, forall follow not starting with a quote: the match re prefers for the QUOTE_STRING pattern on get_string(v).follow '
+                  'is exactly get_string(v), and Den(get_string(v)) == v')
         # (a) image inside the token language
         v = bad_inputs(E, L.complement())
         why = None
         if v is not None:
             why = f'printed text {next(iter(Enc.apply(v)))!r} is not a QUOTE_STRING token of the {dname} dialect'
         else:
-            v = bad_inputs(E, L.concat(Dfa.plus_any(ALPHABET)))
-            if v is not None:
-                why = f'a proper prefix of the printed text {next(iter(Enc.apply(v)))!r} is already a complete literal'
+            # (b) the match `re` prefers on  text . follow  is exactly text (ordered-thread automaton of the real token pattern, vlib/pike.py)
+            r = pike.preferred_not_exact(pk, ALPHABET, E.image(), follow)
+            if r is not None:
+                text, f, end = r
+                v = bad_inputs(E, Dfa.literal(ALPHABET, text))
+                why = (f'printed text {text!r} followed by {f!r} is not read back as one literal: the token pattern prefers a match ending at '
+                       f'offset {end} (the text has {len(text)} characters)')
+                follow_text = f
             else:
-                ext = E.image().concat(follow).intersect(L)
-                w = ext.witness()
-                if w is not None:
-                    why = f'printed text followed by other characters can lex as a longer literal: {w!r}'
-                    v = None
-                else:
-                    r = equivalent(E.then(Den), Fst.identity(ALPHABET).on_domain(R))
-                    if r[0] is False:
-                        v = r[1]
-                        why = f'printed text {next(iter(Enc.apply(v)))!r} denotes {sorted(E.then(Den).apply(v))} ({r[2]})'
-                    elif r[0] is None:
-                        rep.undecided(oid, 'fst', r[1], function=fn, clause=clause)
-                        continue
+                r = equivalent(E.then(Den), Fst.identity(ALPHABET).on_domain(R))
+                if r[0] is False:
+                    v = r[1]
+                    why = f'printed text {next(iter(Enc.apply(v)))!r} denotes {sorted(E.then(Den).apply(v))} ({r[2]})'
+                elif r[0] is None:
+                    rep.undecided(oid, 'fst', r[1], function=fn, clause=clause)
+                    continue
         if why is None:
-            rep.proved(oid, 'fst', 'image within the token language, unique prefix, Den(enc(v)) == v for the whole region', function=fn, clause=clause)
+            rep.proved(oid, 'fst', 'image within the token language, preferred match is the whole text whatever follows, Den(enc(v)) == v for the whole region', function=fn, clause=clause)
         else:
-            rp = replay_encode(dname, lambda x: Constant(x), v, 'const') if v is not None else None
+            rp = replay_encode(dname, lambda x: Constant(x), v, 'const', follow_text) if v is not None else None
             rep.failed(oid, 'fst', f'shortest witness value {v!r}: {why}', function=fn, clause=clause, cex={'value': v}, replay=rp)
 
 
@@ -315,6 +326,27 @@ def variables(rep, dname):
         bad = validate(T_lex, real, ALPHABET[:9], 4, domain=L)
         if bad:
             raise CheckerError(f'fst model of {dname}.{tok} disagrees with CPython on {bad}')
+        # the grammar action that builds the Variable node may decode as well (`variable : VARIABLE`): lexer action, then the action's
+        # `value` argument; validated against the real parser below (replay) and on every token text up to length 4
+        K, fd_p = codecs.parser_action(dname, 'variable', tok)
+        if fd_p is not None:
+            fn = f'{dname}:{tok} lexer action,{dname}:variable grammar action,mindsdb_sql.parser.ast.variable:Variable.get_string'
+            try:
+                T_par = codec.function_transducer(fd_p, ALPHABET, ['p[0]', f'p.{tok}'], result='return', module=K.__module__)
+            except FstError as e:
+                rep.undecided(f'C04.dec.{dname}.{tok}', 'fst', f'extraction of the variable action: {e}', function=fn)
+                continue
+
+            def real_p(w, f=f):
+                r = [x for x in d.Lexer().tokenize(w)]
+                if len(r) != 1 or r[0].type != tok:
+                    return None
+                from mindsdb_sql import parse_sql
+                return parse_sql('select ' + w, dname).targets[0].value
+            T_lex = T_lex.then(T_par)
+            bad = validate(T_lex, real_p, ALPHABET[:9], 4, domain=L)
+            if bad:
+                raise CheckerError(f'fst model of {dname}.{tok} + variable action disagrees with CPython on {bad}')
         Den = codecs.den_variable(sig)
         w = L.minus(Den.domain()).witness()
         oid = f'C04.dec.{dname}.{tok}'
